@@ -93,6 +93,19 @@ def bootstrapCorrect [Transc α] [Add α] (tiny : α) (valid : Bool) (lik : List
   if valid then { pred with logw := List.zipWith (fun w l => w + Transc.log (l + tiny)) pred.logw lik }
   else pred
 
+/-- `GaussianLikelihood::likelihood` (the shipped `LikelihoodModel`): the measurement, the predicted
+    measurements, the innovations and the noise covariance are asked of the measurement model in this
+    order; the first failure returns `(false, VectorXd::Zero(1))`; otherwise the likelihood of particle
+    `i` is `scale · N(innovationᵢ; 0, R)`.  `dens` is `utils::multivariate_gaussian_density(·, 0, R)`
+    (C15's subject), `innov` the innovation columns. -/
+def gaussianLikelihood {ι : Type} [Mul α] [Zero α] (scale : α) (okMeasure okPredicted okInnovation okCov : Bool)
+    (dens : ι → α) (innov : List ι) : Bool × List α :=
+  if !okMeasure then (false, [0])
+  else if !okPredicted then (false, [0])
+  else if !okInnovation then (false, [0])
+  else if !okCov then (false, [0])
+  else (true, innov.map (fun v => scale * dens v))
+
 /-- the corrected set before the resampling decision:
     `if (freeze) { correct(pred, cor); cor.weight() -= log_sum_exp(cor.weight()); } else cor = pred;`
     with `PFCorrection::correct`: `if (!skip_) correctStep(pred, cor); else cor = pred;` -/
